@@ -720,7 +720,10 @@ def _handle_dict(target, spec, scope):
     for key in set(defaults) - set(result):
         result[key] = arg_val(target, defaults[key], scope)
     if required:
-        raise MatchError("target missing expected keys: {0}", ', '.join([bbrepr(r) for r in required]))
+        # (in the order the pattern lists them: required is a set, and Required()
+        # objects hash by address)
+        raise MatchError("target missing expected keys: {0}",
+                         ', '.join([bbrepr(r) for r in spec_keys if r in required]))
     return result
 
 
